@@ -38,6 +38,9 @@ func runC15(c *an.Ctx) {
 	r15n(c)
 	r15o(c)
 	c.As(map[string]string{"R14c": "R15p"}, func() { r14c(c) })
+	// round 9
+	r15q(c)
+	r15r(c)
 }
 
 var c15Funcs = []struct{ pkg, name, role string }{
